@@ -15,7 +15,8 @@ from .. import common
 from ..common import coq_eval
 
 MANIFEST = {
-	'text': 'resolve_once / resolve_order (+ uniqueness of the listing, imports-first) / resolve_terminates / resolve_succeeds_iff / '
+	'text': 'resolve_once / resolve_order (+ uniqueness of the listing, imports-first) / resolve_result_unique / resolve_root_last / '
+		'resolve_failure_cause / resolve_terminates / resolve_succeeds_iff / '
 		'exit_code_spec / main_exit_spec are Qed theorems (Props/C17.v, closed under the global context) over the model of '
 		'LarkMultiFileParser.parse and main\'s exit-status control flow on an abstract file system, for every import graph (no bound); '
 		'the model\'s holes (membership test, lark rule names vs catbuffer.lark, import child index, exit constants) are regenerated from '
